@@ -253,6 +253,15 @@ pub fn spec(prop: &str) -> Option<&'static PropSpec> {
     PROPS.iter().find(|p| p.id == prop)
 }
 
+/// The first property whose class list covers `class` (preferring one that runs on `engine`).
+pub fn owner_of(class: &str, engine: &str) -> Option<&'static str> {
+    let all = PROPS;
+    all.iter()
+        .find(|s| belongs(s, class) && (s.engine == engine || s.mix.iter().any(|(e, _)| *e == engine)))
+        .or_else(|| all.iter().find(|s| belongs(s, class)))
+        .map(|s| s.id)
+}
+
 pub fn belongs(spec: &PropSpec, class: &str) -> bool {
     spec.classes.iter().any(|c| class.starts_with(c))
 }
